@@ -34,7 +34,15 @@ LongPairs == UNION {{ <<RepSeq(<<97>>, k) \o <<98>>, <<97, 98>>>>,              
                              <<[LongNeedle(k) EXCEPT ![k - 1] = 99] \o LongNeedle(k), LongNeedle(k)>>,
                              <<LongNeedle(k) \o [LongNeedle(k) EXCEPT ![k - 1] = 99], LongNeedle(k)>>,
                              <<[LongNeedle(k) EXCEPT ![k - 1] = 99], LongNeedle(k)>> } : k \in {12, 13, 255, 256, 257}}
-MCPairsL  == MCPairs \cup LongPairs
+\* self-overlap family (what breaks border tables and skip heuristics): the needle preceded by one of its proper
+\* prefixes, or followed by one of its proper suffixes - a failed partial match that overlaps the real occurrence.
+\* Needles: every {a,b} string of 8 bytes (nested borders), and needles whose last / first 8 bytes are pairwise
+\* distinct while a piece of that tail / head recurs further inside ("omer-customer", and the mirror images)
+Tail8 == <<99, 117, 115, 116, 111, 109, 101, 114>>                       \* c u s t o m e r
+DistinctTail == UNION {{SubSeq(Tail8, q, 8) \o <<45>> \o Tail8, <<104>> \o SubSeq(Tail8, q, 8) \o <<45>> \o Tail8} : q \in 2..8}
+OverlapNeedles == [1..8 -> {97, 98}] \cup DistinctTail \cup {ReverseSeq(x) : x \in DistinctTail}
+OverlapPairs == UNION {UNION {{ <<SubSeq(x, 1, q) \o x, x>>, <<x \o SubSeq(x, q + 1, Len(x)), x>> } : q \in 1..(Len(x) - 1)} : x \in OverlapNeedles}
+MCPairsL  == MCPairs \cup LongPairs \cup OverlapPairs
 
 Vec(o, hh, nn) == [m |-> "Matcher", op |-> o, h |-> hh, n |-> nn, exp |-> Ref(o, hh, nn)]
 \* one file per operation (TLC limits a set to 10^6 elements); keys are homogeneous tuples
